@@ -208,6 +208,11 @@ def check_c06(tier):
         if res["id"] % 1500 == 0:
             V.sample({"hist": hist, "okOrder": case["okOrder"], "queries": nq})
     # B2: seeded random histories beyond the exhaustive bound, validated by TLC against HistoryTrace.tla
+    if not os.environ.get("VERIF_REPLAY"):
+        import lsphist
+        n_lsp = lsphist.c06_sessions(V, tier)
+        replayed += n_lsp
+        V.notes["lsp_history_sessions"] = n_lsp
     import tracecheck
     n_ev = tracecheck.validate_random_histories(V, 150 if tier == "quick" else 3000, 12 if tier == "quick" else 16, "c06")
     V.count(n_ev)
@@ -362,6 +367,11 @@ def check_c07(tier):
         V.sample({"note": "see rule"})
     shutil.rmtree(root, ignore_errors=True)
     replayed += real_eviction(V, 2 if tier == "quick" else 12)
+    if not os.environ.get("VERIF_REPLAY"):
+        import lsphist
+        n_lsp = lsphist.c07_sessions(V, tier)
+        replayed += n_lsp
+        V.notes["lsp_history_sessions"] = n_lsp
     import tracecheck
     n_ev = tracecheck.validate_random_histories(V, 150 if tier == "quick" else 3000, 14 if tier == "quick" else 18, "c07")
     V.count(n_ev)
